@@ -8,8 +8,8 @@ package main
 import (
 	"bufio"
 	"fmt"
-	"strconv"
 	"sort"
+	"strconv"
 	"strings"
 	"sync"
 	"testing"
